@@ -344,8 +344,8 @@ func runCase(ci *caseIn) (term string, observed interface{}, nontrivial bool, si
 		if verr == nil {
 			vld = fromReal(&vc)
 		}
-		// a Marshal error is an observation (only the quic writer returns one, for a key or value
-		// over 65535 bytes): bit 1 kv, 2 websocket URL, 4 webtransport URL, 8 quic
+		// a Marshal error is an observation (MarshalKeyValues - and with it every writer - for text
+		// that is not UTF-8; the quic writer also for a key or value over 65535 bytes): bit 1 kv, 2 websocket URL, 4 webtransport URL, 8 quic
 		merr := 0
 		rp := p.real()
 		kvm, err := rp.MarshalKeyValues()
@@ -396,8 +396,12 @@ func runCase(ci *caseIn) (term string, observed interface{}, nontrivial bool, si
 		for _, i := range perm {
 			pp = append(pp, kv[i])
 		}
-		pbin := frame(pp)
-		rtPerm := unmarshalBin(pbin)
+		var pbin []byte
+		var rtPerm *jP
+		if merr&1 == 0 { // nothing to re-frame when MarshalKeyValues failed
+			pbin = frame(pp)
+			rtPerm = unmarshalBin(pbin)
+		}
 		r1, r2 := p.real(), p.real()
 		c1 := r1.CompressConfig(ci.B1.real())
 		c2 := r2.CompressConfig(ci.B2.real())
@@ -413,7 +417,6 @@ func runCase(ci *caseIn) (term string, observed interface{}, nontrivial bool, si
 			"roundtrip_same": []bool{same(rtKV), same(rtWS), same(rtWT), same(rtBin), same(rtPerm)},
 			"cfg1": jc(c1), "cfg2": jc(c2)}
 		nontrivial = len(kv) >= 2 || verr != nil
-		sig = paramsSig(p)
 	case "kv":
 		m := map[string]string{}
 		var ps []pair
@@ -438,11 +441,6 @@ func runCase(ci *caseIn) (term string, observed interface{}, nontrivial bool, si
 		term = fmt.Sprintf("mkNegCase (InKV %s %s) (ObsKV %s %s %s)", l.P(init), l.KVs(ps), l.OP(rkv), l.OP(rws), l.OP(rwt))
 		observed = map[string]interface{}{"kv": rkv, "ws": rws, "wt": rwt}
 		nontrivial = len(ps) > 0
-		for _, e := range ps {
-			if !utf8.Valid(e.k) || !utf8.Valid(e.v) {
-				sig = sigF26
-			}
-		}
 	case "url":
 		vs := url.Values{}
 		var it []string
@@ -461,14 +459,6 @@ func runCase(ci *caseIn) (term string, observed interface{}, nontrivial bool, si
 			}
 			vs[string(e.K)] = vals
 			it = append(it, coqfmt.Pair(l.B(e.K), coqfmt.List(valsT)))
-			if !utf8.Valid(e.K) {
-				sig = sigF26
-			}
-			for _, v := range e.V {
-				if !utf8.Valid(v) {
-					sig = sigF26
-				}
-			}
 		}
 		rws := unmarshalWS(zeroP, vs)
 		rwt := unmarshalWT(zeroP, vs)
@@ -497,28 +487,9 @@ func runCase(ci *caseIn) (term string, observed interface{}, nontrivial bool, si
 	return l.wrap(term), observed, nontrivial, sig
 }
 
-// Signatures of the known findings a case can exhibit (they label the case; only a case the
-// judge flags is reported).  F26: text that is not UTF-8 is replaced by U+FFFD (writer and the
-// key/value / URL readers) instead of being refused.  F27: level / window bits outside their
-// range are accepted by Validate when no compression type is named, yet CompressConfig acts on them.
-// (F25, a text longer than 65535 bytes truncated by the quic writer, is fixed in /repo: the
-// long-text cases now check that Marshal refuses.)
-const (
-	sigF26 = "F26:non-utf8-text-replaced"
-	sigF27 = "F27:level-window-unchecked-without-type"
-)
-
-func paramsSig(p *jP) string {
-	var sigs []string
-	if !utf8.Valid(p.Enc) || !utf8.Valid(p.Comp) || !utf8.Valid(p.Tid) || !utf8.Valid(p.Tgid) {
-		sigs = append(sigs, sigF26)
-	}
-	out := func(v *int, lo, hi int) bool { return v != nil && (*v < lo || *v > hi) }
-	if len(p.Comp) == 0 && (out(p.Level, 0, 9) || out(p.Bits, 0, 32)) {
-		sigs = append(sigs, sigF27)
-	}
-	return strings.Join(sigs, "+")
-}
+// (The findings F25, F26, F27 are fixed in /repo; their generators - long texts, text that is
+// not UTF-8, level / window bits out of range without a type - stay as regression cases and
+// carry no signature: a flagged case is a new failure.)
 
 const dummyTerm = "mkNegCase (InBin []) (ObsBin (Some p0))"
 
